@@ -92,6 +92,34 @@ def t1_abort_wired(P, E):
     return r
 
 
+def t2_one_scheduler(P, E):
+    """One scheduler per subscription, made by the per-subscribe code itself (the closure given to Observable::create), once: not by a
+    handler on the first event, not in a loop.  (Handlers of one subscription run on several threads - merge, flat_map, zip upstream - :
+    a scheduler made lazily by `the first event` is made twice when two first events race, one of them is orphaned with the event it was
+    given, and FIFO / one-thread / nothing-lost are gone.)"""
+    r = RuleResult("T2", "each subscription's scheduler is created once, directly in the closure given to Observable::create")
+    inst = scheduler_instances(P, E)
+    n = 0
+    for key, d in sorted(inst.items(), key=lambda kv: str(kv[0])):
+        B, g = d["body"], d["root"]
+        if g[1] != "ret" or not d["posts"]:
+            continue
+        n += 1
+        roles = E.role_of(B.id)
+        rootfn = norm(B.root)
+        r.instance((rootfn, "scheduler creation"), True, "created in %s (roles %s)%s" % (B.nid, roles, ", in a loop" if B.in_cycle(g[2]) else ""))
+        if "SOURCE" not in roles:
+            r.violate((rootfn, "scheduler not created by the per-subscribe code"),
+                      "the scheduler of this subscription is created in %s (roles %s), not in the closure given to Observable::create: "
+                      "code that can run more than once per subscription (or on several threads) makes more than one scheduler" % (B.nid, roles),
+                      body=B, line=B.call_at(g[2]).line if B.call_at(g[2]) else None)
+        elif B.in_cycle(g[2]):
+            r.violate((rootfn, "scheduler created in a loop"), "the per-subscribe code creates its scheduler inside a loop", body=B)
+    if n < 5:
+        r.error("T2: only %d scheduler instantiation sites found (floor 5)" % n)
+    return r
+
+
 # --------------------------------------------------------------------------- C09
 
 MATCH = {"N": "sink_next", "E": "sink_error", "C": "sink_complete"}
